@@ -75,6 +75,11 @@ def check_defined(rep, repo, rule, roots, label):
             rep.fail(rule, f.where, '%s: every attribute that is read is defined somewhere for its class' % label,
                      got='.%s of a %s object is read at line %d; nothing assigns it on a %s (AttributeError)' % (attr, cls, line, cls),
                      want='an assignment of %s.%s' % (cls, attr), construct='attribute %s.%s never defined' % (cls, attr), loc='%s:%d' % (f.relpath, line))
+        for attr, line in lints.vacuous_hasattr_probes(repo, f):
+            n_bad += 1
+            rep.fail(rule, f.where, '%s: a hasattr probe distinguishes objects that have the attribute from objects that do not' % label,
+                     got='hasattr(..., %r) at line %d is always true: __init__ sets .%s to None, so the guarded code runs with None where it expects a value' % (attr, line, attr),
+                     want='`is not None` (or no None initialisation)', construct='vacuous hasattr probe of %s in %s' % (attr, f.qualname), loc='%s:%d' % (f.relpath, line))
         for name, line in lints.undefined_names(repo, f):
             n_bad += 1
             rep.fail(rule, f.where, '%s: every name that is read is bound in the function, in its module or by an import' % label,
